@@ -1156,28 +1156,46 @@ func (i *BigInt) LeftBitshiftInt(other Value) Value {
 func (i *BigInt) LeftBitshiftBigInt(other *BigInt) Value {
 	if other.IsSmallInt() {
 		oSmall := other.ToSmallInt()
+		if oSmall < 0 {
+			return rightBitshiftBigInt(i, -oSmall)
+		}
 		return leftBitshiftBigInt(i, oSmall)
 	}
 	return SmallInt(0).ToValue()
 }
 
 func (i *BigInt) LeftBitshiftSmallInt(other SmallInt) Value {
+	if other < 0 {
+		return rightBitshiftBigInt(i, -other)
+	}
 	return leftBitshiftBigInt(i, other)
 }
 
 func (i *BigInt) LeftBitshiftInt64(other Int64) Value {
+	if other < 0 {
+		return rightBitshiftBigInt(i, -other)
+	}
 	return leftBitshiftBigInt(i, other)
 }
 
 func (i *BigInt) LeftBitshiftInt32(other Int32) Value {
+	if other < 0 {
+		return rightBitshiftBigInt(i, -other)
+	}
 	return leftBitshiftBigInt(i, other)
 }
 
 func (i *BigInt) LeftBitshiftInt16(other Int16) Value {
+	if other < 0 {
+		return rightBitshiftBigInt(i, -other)
+	}
 	return leftBitshiftBigInt(i, other)
 }
 
 func (i *BigInt) LeftBitshiftInt8(other Int8) Value {
+	if other < 0 {
+		return rightBitshiftBigInt(i, -other)
+	}
 	return leftBitshiftBigInt(i, other)
 }
 
